@@ -176,7 +176,7 @@ func c12GenCase(r *vfRand, adv bool) *c01In {
 		n = r.Range(10, 50)
 	}
 	defer func() { // pipelines replaced / deleted / re-created between the requests of the sequence
-		if r.Chance(1, 3) || adv {
+		if r.Chance(1, 2) || adv {
 			in.Mappers = c12GenMappers(r, in.Server, len(in.Seq))
 		}
 	}()
@@ -207,9 +207,20 @@ func c12GenMappers(r *vfRand, s c01Server, n int) [][]c01Backend {
 	cur := c01DefaultMapper(s)
 	next := 2
 	out := [][]c01Backend{}
+	var used []string
+	for _, rule := range s.Rules {
+		for _, p := range rule.Paths {
+			if len(p.Headers) == 0 {
+				used = append(used, p.Backend)
+			}
+		}
+	}
 	for i := 0; i < n; i++ {
-		if i > 1 && r.Chance(1, 5) {
+		if i > 1 && r.Chance(1, 4) {
 			name := c01Pick(r, s.Backends)
+			if len(used) > 0 && r.Chance(3, 4) {
+				name = c01Pick(r, used) // a backend some path entry routes to
+			}
 			idx := -1
 			for k, b := range cur {
 				if b.Name == name {
@@ -368,6 +379,34 @@ func c12GenHostMixCase(r *vfRand) *c01In {
 		in.Server.Rules = append(in.Server.Rules, c01Rule{Host: "www.example.com", Paths: []c01Path{mk("/www-only", "", "C", nil)}})
 	}
 	in.Server.Rules = append(in.Server.Rules, owner)
+	if internal == "internal.example.com" && r.Chance(1, 2) {
+		// letter case of the Host header: the exact-host rule owns unfiltered copies of the
+		// paths; every other spelling is routed by a case-insensitive regexp rule whose path
+		// filters block X.  An allowed client warms the cache with one spelling, X uses another.
+		fx := blockX()
+		in.Server.Rules = []c01Rule{
+			{Host: internal, Paths: []c01Path{mk("/api", "", "A", []string{"GET", "POST"}), mk("", "/files/", "B", nil)}},
+			{HostRegexp: `(?i)^internal\.example\.com(:\d+)?$`, Paths: []c01Path{mk("/api", "", "C", []string{"GET", "POST"}), mk("", "/files/", "C", nil)}},
+			owner,
+		}
+		in.Server.Rules[1].Paths[0].Filter, in.Server.Rules[1].Paths[1].Filter = fx, fx
+		spell := []string{"internal.example.com", "INTERNAL.example.com", "Internal.Example.Com:80"}
+		tg := [][2]string{{"GET", "/api"}, {"DELETE", "/api"}, {"GET", "/files/x"}, {"GET", "/nothing"}}
+		for b := r.Range(2, 4); b > 0; b-- {
+			t := tg[r.Intn(len(tg))]
+			h1, h2 := spell[0], spell[1+r.Intn(2)]
+			if r.Chance(1, 3) {
+				h1, h2 = h2, h1
+			}
+			rq := func(h, ip string) int {
+				in.Reqs = append(in.Reqs, c01Req{Host: h, Method: t[0], Path: t[1], Headers: [][2]string{}, Remote: net.JoinHostPort(ip, "4321")})
+				return len(in.Reqs) - 1
+			}
+			y1, x2, x1, y2 := rq(h1, y), rq(h2, x), rq(h1, x), rq(h2, y)
+			in.Seq = append(in.Seq, y1, y1, x2, x1, y2, x2)
+		}
+		return in
+	}
 
 	intHost := internal
 	if strings.Contains(internal, ":") && !strings.HasPrefix(internal, "[") {
